@@ -801,7 +801,7 @@ func Run(cfg hx.Config) error {
 	if err != nil {
 		return err
 	}
-	r.Rule = "layer descriptions realized through the real RemoteFetchArena against scripted responses (payload x compression x content type x digest x media type x damage x framing/terminal condition x read chunking), single fetches, multi-layer calls and hold/refetch/close histories; non-trivial = a distinct layer line (description + delivered bytes + parameters; every one reaches at least the digest/uri validation of the model) or a distinct oracle evaluation (outcome x damage x compression)"
+	r.Rule = "layer descriptions realized through the real RemoteFetchArena against scripted responses (payload x compression x content type x digest x media type x damage x framing/terminal condition x read chunking x redirects x content-encoding x request headers x spool-file limit x several scripted answers per URI), single fetches, multi-layer calls, hold/refetch/close histories, consumer schedules on the realized layers (several readers, Read/ReadAt/Seek/Copy interleaved, before and after the close), controlled schedules of concurrent users sharing URIs and digests (parked at the arena's hook points and at the transport), and direct calls of CheckResponse, Digest parsing/Scan, detectCompression and Layer.Init; non-trivial = a distinct protocol line (every layer line reaches at least the digest/uri validation of the model) or a distinct oracle evaluation (outcome x damage x compression)"
 	root, err := os.MkdirTemp("", "verif-c09-arena-")
 	if err != nil {
 		return err
@@ -859,6 +859,7 @@ func Run(cfg hx.Config) error {
 		schedScenario(g, next(tr, false), tr)
 	}
 	r.Notes["scheduled_scenarios"] = nsched
+	r.Notes["scheduled_scenarios_discarded_as_unsettled"] = r.Hist["sched:discarded-unsettled"]
 
 	// 5c. CheckResponse, Digest texts and Scan, detectCompression on short slices
 	if !r.Stop() {
